@@ -343,7 +343,6 @@ func c35pullChain(k *eng.Check) {
 	// writer
 	mFinal := eng.Static("(*" + c35pull + ".PullTableFileWriter).uploadAndFinalizeThread")
 	if fn := k.Fn("(*" + c35pull + ".PullTableFileWriter).Run"); fn != nil {
-		k.OnlyAfter("writer-run-waits", fn, "Run returns nil only if errgroup.Wait returned nil", eng.SuccessExits(fn), 1, k.OkCalls(fn, "egwait", c35mEgWait))
 		// Run continues (drains a channel) after Wait: every value it may return with a possibly-nil error is the Wait result
 		waits := eng.Calls(fn, c35mEgWait, false)
 		for _, v := range eng.ReturnedValues(fn, eng.SuccessExits(fn), 0) {
